@@ -53,11 +53,21 @@ def addLog (idx3 : Bytes → Idx3) (b : Bloom) (l : Log) : Bloom :=
 def logsBloom (idx3 : Bytes → Idx3) (logs : List Log) : Bloom :=
   logs.foldl (addLog idx3) 0
 
-/-- `executeBlock`: `allLogs` collects `receipt.Logs` of every transaction that has a receipt, in order -/
-def allLogs (receipts : List (Option (List Log))) : List Log :=
-  (receipts.filterMap id).flatten
+/-- an EVM receipt as far as the bloom is concerned.  `failed` is `Status != ReceiptStatusSuccessful`: a failed transaction still
+has a receipt, and its receipt still carries logs (the gas fee is charged even when execution fails, and `MakeOngTransferLog` emits
+the `Transfer(from, to, amount)` log of the ONG contract for it; the logs of the reverted execution itself are gone). -/
+structure Receipt where
+  failed : Bool
+  logs : List Log
+  deriving Repr, DecidableEq
 
-def blockBloom (idx3 : Bytes → Idx3) (receipts : List (Option (List Log))) : Bloom :=
+/-- `executeBlock`: `if receipt != nil { allLogs = append(allLogs, receipt.Logs...) }` for every transaction in order — every
+transaction WITH a receipt contributes all its logs, whatever the receipt status (the field `failed` is not looked at);
+transactions without a receipt (everything that is not an EIP-155 transaction) contribute nothing -/
+def allLogs (receipts : List (Option Receipt)) : List Log :=
+  ((receipts.filterMap id).map (·.logs)).flatten
+
+def blockBloom (idx3 : Bytes → Idx3) (receipts : List (Option Receipt)) : Bloom :=
   logsBloom idx3 (allLogs receipts)
 
 /-! ## bloombits.Generator -/
